@@ -1,3 +1,543 @@
-pub fn op_parse(_p: &[&str], out: &mut Vec<String>) { out.push("TODO".into()); }
-pub fn op_pipe(_p: &[&str], out: &mut Vec<String>) { out.push("TODO".into()); }
-pub fn op_yaml(_p: &[&str], out: &mut Vec<String>) { out.push("TODO".into()); }
+//! Pipeline ops: parse, cfg, facts, diagnostics, yaml — on in-memory multi-file inputs.
+use crate::basic::{range_str, strerr_kind, tok_kind};
+use crate::util::*;
+use riscv_analysis::analysis::{AvailableValue, AvailableValuePass, LivenessPass, MemoryLocation};
+use riscv_analysis::cfg::{AvailableValueMap, Cfg, CfgNode, CfgWrapper, RegisterSet, Segment};
+use riscv_analysis::gen::{
+    EcallTerminationPass, EliminateDeadCodeDirectionsPass, FunctionMarkupPass, NodeDirectionPass,
+};
+use riscv_analysis::parser::{
+    DirectiveType, HasIdentity, Inst, ParseError, ParserNode, RVParser,
+    Register, Token, With,
+};
+use riscv_analysis::passes::{
+    CfgError, DiagnosticItem, DiagnosticLocation, DiagnosticManager, GenerationPass, Manager,
+    SeverityLevel,
+};
+use riscv_analysis::reader::{FileReader, FileReaderError};
+use std::collections::HashMap;
+use std::rc::Rc;
+use uuid::Uuid;
+
+/// In-memory reader. Files are addressed by name; a name starting with `!io` yields an IO
+/// error, an unknown name is "not found" (IO error, like the CLI reader), a second import of
+/// the same name is `FileAlreadyRead`.
+#[derive(Clone)]
+pub struct MemReader {
+    pub files: Vec<(String, String)>,
+    pub read: Vec<(Uuid, String)>, // import order
+}
+
+impl MemReader {
+    pub fn index(&self, id: Uuid) -> String {
+        if id.is_nil() {
+            return "nil".to_string();
+        }
+        match self.read.iter().position(|(u, _)| *u == id) {
+            Some(i) => i.to_string(),
+            None => "?".to_string(),
+        }
+    }
+}
+
+impl FileReader for MemReader {
+    fn import_file(
+        &mut self,
+        path: &str,
+        _parent: Option<Uuid>,
+    ) -> Result<(Uuid, String), FileReaderError> {
+        if path.starts_with("!io") {
+            return Err(FileReaderError::IOErr("injected".to_string()));
+        }
+        if self.read.iter().any(|(_, n)| n == path) {
+            return Err(FileReaderError::FileAlreadyRead(path.to_string()));
+        }
+        match self.files.iter().find(|(n, _)| n == path) {
+            Some((n, t)) => {
+                let id = Uuid::new_v4();
+                self.read.push((id, n.clone()));
+                Ok((id, t.clone()))
+            }
+            None => Err(FileReaderError::IOErr("not found".to_string())),
+        }
+    }
+    fn get_text(&self, uuid: Uuid) -> Option<String> {
+        let name = &self.read.iter().find(|(u, _)| *u == uuid)?.1;
+        self.files.iter().find(|(n, _)| n == name).map(|x| x.1.clone())
+    }
+    fn get_filename(&self, uuid: Uuid) -> Option<String> {
+        self.read.iter().find(|(u, _)| *u == uuid).map(|x| x.1.clone())
+    }
+    fn get_base_file(&self) -> Option<Uuid> {
+        self.read.first().map(|x| x.0)
+    }
+}
+
+fn loc(r: &MemReader, d: &dyn DiagnosticLocation) -> String {
+    format!("{}@{}", range_str(&d.range()), r.index(d.file()))
+}
+
+fn wreg(r: &MemReader, w: &With<Register>) -> String {
+    format!("{}/{}", w.get().to_num(), loc(r, w))
+}
+
+fn tokfull(r: &MemReader, t: &Token) -> String {
+    let (k, p) = tok_kind(t.token_type());
+    format!("{k}:{}:{}:{}", hex(&p), hex(&t.raw_text()), loc(r, t))
+}
+
+pub fn node_str(r: &MemReader, n: &ParserNode) -> String {
+    let inst = format!("{:?}", n.inst());
+    let tok = format!("{}:{}", hex(&n.raw_text()), loc(r, n));
+    match n {
+        ParserNode::ProgramEntry(_) => format!("ProgramEntry tok={tok}"),
+        ParserNode::FuncEntry(x) => {
+            format!("FuncEntry handler={} tok={tok}", x.is_interrupt_handler)
+        }
+        ParserNode::Arith(x) => format!(
+            "Arith {inst} it={} rd={} rs1={} rs2={} tok={tok}",
+            loc(r, &x.inst), wreg(r, &x.rd), wreg(r, &x.rs1), wreg(r, &x.rs2)
+        ),
+        ParserNode::IArith(x) => format!(
+            "IArith {inst} it={} rd={} rs1={} imm={}/{} tok={tok}",
+            loc(r, &x.inst), wreg(r, &x.rd), wreg(r, &x.rs1), x.imm.get().value(), loc(r, &x.imm)
+        ),
+        ParserNode::Label(x) => {
+            format!("Label name={}/{} tok={tok}", hex(x.name.get().as_str()), loc(r, &x.name))
+        }
+        ParserNode::JumpLink(x) => format!(
+            "JumpLink {inst} it={} rd={} name={}/{} tok={tok}",
+            loc(r, &x.inst), wreg(r, &x.rd), hex(x.name.get().as_str()), loc(r, &x.name)
+        ),
+        ParserNode::JumpLinkR(x) => format!(
+            "JumpLinkR {inst} it={} rd={} rs1={} imm={}/{} tok={tok}",
+            loc(r, &x.inst), wreg(r, &x.rd), wreg(r, &x.rs1), x.imm.get().value(), loc(r, &x.imm)
+        ),
+        ParserNode::Basic(x) => format!("Basic {inst} it={} tok={tok}", loc(r, &x.inst)),
+        ParserNode::Directive(x) => {
+            let d = match &x.dir {
+                DirectiveType::Include(p) => format!("Include {}/{}", hex(p.get()), loc(r, p)),
+                DirectiveType::Align(i) => format!("Align {}/{}", i.get().value(), loc(r, i)),
+                DirectiveType::Ascii { text, null_term } => {
+                    format!("Ascii {} {}/{}", null_term, hex(text.get()), loc(r, text))
+                }
+                DirectiveType::DataSection => "DataSection".to_string(),
+                DirectiveType::TextSection => "TextSection".to_string(),
+                DirectiveType::Data(dt, vals) => format!(
+                    "Data {dt} [{}]",
+                    vals.iter()
+                        .map(|v| format!("{}/{}", v.get().value(), loc(r, v)))
+                        .collect::<Vec<_>>()
+                        .join(",")
+                ),
+                DirectiveType::Space(i) => format!("Space {}/{}", i.get().value(), loc(r, i)),
+            };
+            format!("Directive {:?} dt={} {d} tok={tok}", x.dir_token.get(), loc(r, &x.dir_token))
+        }
+        ParserNode::Branch(x) => format!(
+            "Branch {inst} it={} rs1={} rs2={} name={}/{} tok={tok}",
+            loc(r, &x.inst), wreg(r, &x.rs1), wreg(r, &x.rs2), hex(x.name.get().as_str()), loc(r, &x.name)
+        ),
+        ParserNode::Store(x) => format!(
+            "Store {inst} it={} rs1={} rs2={} imm={}/{} tok={tok}",
+            loc(r, &x.inst), wreg(r, &x.rs1), wreg(r, &x.rs2), x.imm.get().value(), loc(r, &x.imm)
+        ),
+        ParserNode::Load(x) => format!(
+            "Load {inst} it={} rd={} rs1={} imm={}/{} tok={tok}",
+            loc(r, &x.inst), wreg(r, &x.rd), wreg(r, &x.rs1), x.imm.get().value(), loc(r, &x.imm)
+        ),
+        ParserNode::LoadAddr(x) => format!(
+            "LoadAddr {inst} it={} rd={} name={}/{} tok={tok}",
+            loc(r, &x.inst), wreg(r, &x.rd), hex(x.name.get().as_str()), loc(r, &x.name)
+        ),
+        ParserNode::Csr(x) => format!(
+            "Csr {inst} it={} rd={} csr={}/{} rs1={} tok={tok}",
+            loc(r, &x.inst), wreg(r, &x.rd), x.csr.get().value(), loc(r, &x.csr), wreg(r, &x.rs1)
+        ),
+        ParserNode::CsrI(x) => format!(
+            "CsrI {inst} it={} rd={} csr={}/{} imm={}/{} tok={tok}",
+            loc(r, &x.inst), wreg(r, &x.rd), x.csr.get().value(), loc(r, &x.csr),
+            x.imm.get().value(), loc(r, &x.imm)
+        ),
+    }
+}
+
+pub fn perr_str(r: &MemReader, e: &ParseError) -> String {
+    match e {
+        ParseError::Expected(ex, t) => format!(
+            "Expected [{}] {}",
+            ex.iter().map(|x| x.to_string()).collect::<Vec<_>>().join("|"),
+            tokfull(r, t)
+        ),
+        ParseError::Unsupported(t) => format!("Unsupported {}", tokfull(r, t)),
+        ParseError::UnexpectedToken(t) => format!("UnexpectedToken {}", tokfull(r, t)),
+        ParseError::UnexpectedError(t) => format!("UnexpectedError {}", tokfull(r, t)),
+        ParseError::UnknownDirective(t) => format!("UnknownDirective {}", tokfull(r, t)),
+        ParseError::CyclicDependency(t) => format!("CyclicDependency {}", tokfull(r, t)),
+        ParseError::FileNotFound(p) => format!("FileNotFound {}/{}", hex(p.get()), loc(r, p)),
+        ParseError::IOError(p, m) => format!("IOError {}/{} {}", hex(p.get()), loc(r, p), hex(m)),
+        ParseError::InvalidString(t, e) => format!(
+            "InvalidString {} {} {}:{}:{}",
+            strerr_kind(&e.kind),
+            tokfull(r, t),
+            e.pos.zero_idx_line(),
+            e.pos.zero_idx_column(),
+            e.pos.raw_index()
+        ),
+    }
+}
+
+fn sev(l: &SeverityLevel) -> &'static str {
+    match l {
+        SeverityLevel::Error => "Error",
+        SeverityLevel::Warning => "Warning",
+        SeverityLevel::Information => "Information",
+        SeverityLevel::Hint => "Hint",
+    }
+}
+
+pub fn val_str(v: &AvailableValue) -> String {
+    match v {
+        AvailableValue::Constant(c) => format!("c:{c}"),
+        AvailableValue::Address(l) => format!("a:{}", hex(l.get().as_str())),
+        AvailableValue::Memory(l, o) => format!("m:{}:{o}", hex(l.as_str())),
+        AvailableValue::RegisterWithScalar(r, o) => format!("rs:{}:{o}", r.to_num()),
+        AvailableValue::OriginalRegisterWithScalar(r, o) => format!("ors:{}:{o}", r.to_num()),
+        AvailableValue::MemoryAtRegister(r, o) => format!("mr:{}:{o}", r.to_num()),
+        AvailableValue::MemoryAtOriginalRegister(r, o) => format!("omr:{}:{o}", r.to_num()),
+        AvailableValue::ValueInCsr(c) => format!("vc:{}", c.value()),
+        AvailableValue::MemoryAtCsr(c, o) => format!("mc:{}:{o}", c.value()),
+    }
+}
+
+pub fn mem_str(m: &MemoryLocation) -> String {
+    match m {
+        MemoryLocation::StackOffset(o) => format!("so:{o}"),
+        MemoryLocation::CsrRegister(c) => format!("csr:{}", c.value()),
+        MemoryLocation::CsrRegisterValueOffset(c, o) => format!("csro:{}:{o}", c.value()),
+    }
+}
+
+fn regmap_str(m: &AvailableValueMap<Register>) -> String {
+    let mut v: Vec<(u8, String)> = m.iter().map(|(k, v)| (k.to_num(), val_str(v))).collect();
+    v.sort();
+    format!("{{{}}}", v.iter().map(|(k, v)| format!("{k}={v}")).collect::<Vec<_>>().join(","))
+}
+
+fn memmap_str(m: &AvailableValueMap<MemoryLocation>) -> String {
+    let mut v: Vec<(MemoryLocation, String)> = m.iter().map(|(k, v)| (k.clone(), val_str(v))).collect();
+    v.sort();
+    format!(
+        "{{{}}}",
+        v.iter().map(|(k, v)| format!("{}={v}", mem_str(k))).collect::<Vec<_>>().join(",")
+    )
+}
+
+fn set_str(s: RegisterSet) -> String {
+    let v: Vec<String> = s.into_iter().map(|r| r.to_num().to_string()).collect();
+    format!("[{}]", v.join(","))
+}
+
+fn idx_of(cfg: &Cfg, n: &Rc<CfgNode>) -> usize {
+    cfg.nodes().iter().position(|x| Rc::ptr_eq(x, n)).unwrap_or(usize::MAX)
+}
+
+fn idx_list(cfg: &Cfg, it: impl Iterator<Item = Rc<CfgNode>>) -> String {
+    let mut v: Vec<usize> = it.map(|n| idx_of(cfg, &n)).collect();
+    v.sort_unstable();
+    format!("[{}]", v.iter().map(|x| x.to_string()).collect::<Vec<_>>().join(","))
+}
+
+fn kind_of(n: &ParserNode) -> &'static str {
+    match n {
+        ParserNode::ProgramEntry(_) => "ProgramEntry",
+        ParserNode::FuncEntry(_) => "FuncEntry",
+        ParserNode::Arith(_) => "Arith",
+        ParserNode::IArith(_) => "IArith",
+        ParserNode::Label(_) => "Label",
+        ParserNode::JumpLink(_) => "JumpLink",
+        ParserNode::JumpLinkR(_) => "JumpLinkR",
+        ParserNode::Basic(_) => "Basic",
+        ParserNode::Directive(_) => "Directive",
+        ParserNode::Branch(_) => "Branch",
+        ParserNode::Store(_) => "Store",
+        ParserNode::Load(_) => "Load",
+        ParserNode::LoadAddr(_) => "LoadAddr",
+        ParserNode::Csr(_) => "Csr",
+        ParserNode::CsrI(_) => "CsrI",
+    }
+}
+
+fn dump_cfg(r: &MemReader, cfg: &Cfg, tag: &str, out: &mut Vec<String>) {
+    for (i, n) in cfg.nodes().iter().enumerate() {
+        let mut labels: Vec<String> = n.labels().iter().map(|l| hex(l.get().as_str())).collect();
+        labels.sort();
+        let mut funcs: Vec<usize> = n.functions().iter().map(|f| idx_of(cfg, &f.entry())).collect();
+        funcs.sort_unstable();
+        let seg = if n.segment() == Segment::Text { "T" } else { "D" };
+        out.push(format!(
+            "{tag} {i} {} seg={seg} labels=[{}] nexts={} prevs={} funcs=[{}] node={}",
+            kind_of(&n.node()),
+            labels.join(","),
+            idx_list(cfg, n.nexts().iter().cloned()),
+            idx_list(cfg, n.prevs().iter().cloned()),
+            funcs.iter().map(|x| x.to_string()).collect::<Vec<_>>().join(","),
+            node_str(r, &n.node()),
+        ));
+    }
+    // functions, one line per distinct function (by entry index)
+    let mut seen: Vec<usize> = Vec::new();
+    let mut lines = Vec::new();
+    for (_, f) in cfg.functions() {
+        let e = idx_of(cfg, &f.entry());
+        if seen.contains(&e) {
+            continue;
+        }
+        seen.push(e);
+        let mut labels: Vec<String> = f.labels().iter().map(|l| hex(l.get().as_str())).collect();
+        labels.sort();
+        let mut nodes: Vec<usize> = f.nodes().iter().map(|n| idx_of(cfg, n)).collect();
+        nodes.sort_unstable();
+        nodes.dedup();
+        lines.push((
+            e,
+            format!(
+                "{tag}.FUNC entry={e} exit={} labels=[{}] nodes=[{}] defs={}",
+                idx_of(cfg, &f.exit()),
+                labels.join(","),
+                nodes.iter().map(|x| x.to_string()).collect::<Vec<_>>().join(","),
+                set_str(*f.defs())
+            ),
+        ));
+    }
+    lines.sort();
+    for (_, l) in lines {
+        out.push(l);
+    }
+    let mut fl: Vec<String> = cfg
+        .functions()
+        .iter()
+        .map(|(k, f)| format!("{}>{}", hex(k.get().as_str()), idx_of(cfg, &f.entry())))
+        .collect();
+    fl.sort();
+    out.push(format!("{tag}.FUNCLABELS [{}]", fl.join(",")));
+}
+
+fn dump_facts(cfg: &Cfg, tag: &str, out: &mut Vec<String>) {
+    for (i, n) in cfg.nodes().iter().enumerate() {
+        out.push(format!(
+            "{tag} {i} ri={} ro={} mi={} mo={} li={} lo={} ud={}",
+            regmap_str(&n.reg_values_in()),
+            regmap_str(&n.reg_values_out()),
+            memmap_str(&n.memory_values_in()),
+            memmap_str(&n.memory_values_out()),
+            set_str(n.live_in()),
+            set_str(n.live_out()),
+            set_str(n.u_def()),
+        ));
+    }
+}
+
+fn cfgerr_str(r: &MemReader, e: &CfgError) -> String {
+    match e {
+        CfgError::LabelsNotDefined(ls) => {
+            let mut v: Vec<String> = ls.iter().map(|l| hex(l.get().as_str())).collect();
+            v.sort();
+            // candidate locations: any of the labels (hash order picks one)
+            let mut locs: Vec<String> = ls.iter().map(|l| loc(r, l)).collect();
+            locs.sort();
+            format!(
+                "LabelsNotDefined [{}] at={} candidates=[{}]",
+                v.join(","),
+                loc(r, e),
+                locs.join(",")
+            )
+        }
+        CfgError::DuplicateLabel(l) => {
+            format!("DuplicateLabel {} at={}", hex(l.get().as_str()), loc(r, l))
+        }
+        CfgError::MultipleLabelsForReturn(..) => "MultipleLabelsForReturn".to_string(),
+        CfgError::NoLabelForReturn(_) => "NoLabelForReturn".to_string(),
+        CfgError::UnexpectedError => "UnexpectedError".to_string(),
+        CfgError::AssertionError => "AssertionError".to_string(),
+    }
+}
+
+fn diag_item_str(r: &MemReader, d: &DiagnosticItem) -> String {
+    format!(
+        "sev={} title={} at={}@{} desc={}",
+        sev(&d.level),
+        hex(&d.title),
+        range_str(&d.range),
+        r.index(d.file),
+        hex(&d.description)
+    )
+}
+
+fn dump_lints(r: &MemReader, cfg: &Cfg, tag: &str, out: &mut Vec<String>) {
+    let mut errs = DiagnosticManager::new();
+    Manager::run_diagnostics(cfg, &mut errs);
+    for e in errs.iter() {
+        let item = DiagnosticItem::from_displayable(e.as_ref());
+        out.push(format!(
+            "{tag} code={} {} text={}",
+            e.get_error_code(),
+            diag_item_str(r, &item),
+            hex(&e.raw_text())
+        ));
+    }
+}
+
+fn parse_files(p: &[&str]) -> (Vec<(String, String)>, usize) {
+    // p[0] = k, then k pairs
+    let k: usize = p[0].parse().unwrap();
+    let mut files = Vec::new();
+    for i in 0..k {
+        files.push((unhex(p[1 + 2 * i]), unhex(p[2 + 2 * i])));
+    }
+    (files, 1 + 2 * k)
+}
+
+/// parse <k> <name1> <text1> ...   (first file is the base file)
+pub fn op_parse(p: &[&str], out: &mut Vec<String>) {
+    let (files, _) = parse_files(&p[1..]);
+    let base = files[0].0.clone();
+    let mut parser = RVParser::new(MemReader { files, read: Vec::new() });
+    let (nodes, errs) = parser.parse_from_file(&base, false);
+    let r = parser.reader.clone();
+    for (i, n) in nodes.iter().enumerate() {
+        out.push(format!("NODE {i} {}", node_str(&r, n)));
+    }
+    for e in &errs {
+        out.push(format!("PERR {}", perr_str(&r, e)));
+    }
+}
+
+/// pipe <stages> <k> <name1> <text1> ... [extra-pass-letters]
+/// stages: comma list of parse,cfg,facts,lints,run,steps ; extra: string over {a,e,l,d,m}
+pub fn op_pipe(p: &[&str], out: &mut Vec<String>) {
+    let stages: Vec<&str> = p[1].split(',').collect();
+    let (files, used) = parse_files(&p[2..]);
+    // optional trailing args: `desc` (model-only hint, ignored here), `x:<pass letters>`
+    let extra = p[2 + used..]
+        .iter()
+        .find_map(|a| a.strip_prefix("x:"))
+        .unwrap_or("");
+    let base = files[0].0.clone();
+    let mut parser = RVParser::new(MemReader { files: files.clone(), read: Vec::new() });
+    let (nodes, errs) = parser.parse_from_file(&base, false);
+    let r = parser.reader.clone();
+    if stages.contains(&"parse") {
+        for (i, n) in nodes.iter().enumerate() {
+            out.push(format!("NODE {i} {}", node_str(&r, n)));
+        }
+        for e in &errs {
+            out.push(format!("PERR {}", perr_str(&r, e)));
+        }
+    }
+    if stages.contains(&"steps") {
+        // the generation pipeline pass by pass (stage 2 of gen_full_cfg, handler names empty)
+        match Cfg::new(nodes.clone()) {
+            Err(e) => out.push(format!("STEPERR new {}", cfgerr_str(&r, &e))),
+            Ok(mut cfg) => {
+                dump_cfg(&r, &cfg, "S0", out);
+                let passes: Vec<(&str, fn(&mut Cfg) -> Result<(), Box<CfgError>>)> = vec![
+                    ("S1", NodeDirectionPass::run),
+                    ("S2", EliminateDeadCodeDirectionsPass::run),
+                    ("S3", AvailableValuePass::run),
+                    ("S4", EcallTerminationPass::run),
+                    ("S5", FunctionMarkupPass::run),
+                ];
+                for (tag, f) in passes {
+                    match f(&mut cfg) {
+                        Ok(()) => dump_cfg(&r, &cfg, tag, out),
+                        Err(e) => {
+                            out.push(format!("STEPERR {tag} {}", cfgerr_str(&r, &e)));
+                            break;
+                        }
+                    }
+                }
+            }
+        }
+    }
+    let full = Manager::gen_full_cfg(nodes.clone());
+    match &full {
+        Err(e) => {
+            if stages.iter().any(|s| ["cfg", "facts", "lints"].contains(s)) {
+                out.push(format!("CFGERR {}", cfgerr_str(&r, e)));
+            }
+        }
+        Ok(cfg) => {
+            if stages.contains(&"cfg") {
+                dump_cfg(&r, cfg, "CFG", out);
+            }
+            if stages.contains(&"facts") {
+                dump_facts(cfg, "FACT", out);
+            }
+            if stages.contains(&"lints") {
+                dump_lints(&r, cfg, "LINT", out);
+            }
+        }
+    }
+    if let Ok(mut cfg) = full {
+        if !extra.is_empty() {
+            for ch in extra.chars() {
+                let res = match ch {
+                    'a' => AvailableValuePass::run(&mut cfg),
+                    'e' => EcallTerminationPass::run(&mut cfg),
+                    'l' => LivenessPass::run(&mut cfg),
+                    'd' => EliminateDeadCodeDirectionsPass::run(&mut cfg),
+                    _ => Ok(()),
+                };
+                if let Err(e) = res {
+                    out.push(format!("XERR {}", cfgerr_str(&r, &e)));
+                }
+            }
+            dump_cfg(&r, &cfg, "XCFG", out);
+            dump_facts(&cfg, "XFACT", out);
+            dump_lints(&r, &cfg, "XLINT", out);
+        }
+    }
+    if stages.contains(&"run") {
+        // the library entry point used by the editor integration
+        let mut parser2 = RVParser::new(MemReader { files, read: Vec::new() });
+        let diags = parser2.run(&base);
+        let r2 = parser2.reader.clone();
+        for d in &diags {
+            out.push(format!("RUN {}", diag_item_str(&r2, d)));
+        }
+    }
+}
+
+/// yaml <k> files... : dump, reload, re-dump
+pub fn op_yaml(p: &[&str], out: &mut Vec<String>) {
+    let (files, _) = parse_files(&p[1..]);
+    let base = files[0].0.clone();
+    let mut parser = RVParser::new(MemReader { files, read: Vec::new() });
+    let (nodes, _errs) = parser.parse_from_file(&base, false);
+    match Manager::gen_full_cfg(nodes) {
+        Err(_) => out.push("YAML CFGERR".to_string()),
+        Ok(cfg) => {
+            let w = CfgWrapper::from(&cfg);
+            match serde_yaml::to_string(&w) {
+                Err(e) => out.push(format!("YAML SERERR {}", hex(&e.to_string()))),
+                Ok(s) => {
+                    out.push(format!("YAML1 {}", hex(&s)));
+                    match serde_yaml::from_str::<CfgWrapper>(&s) {
+                        Err(e) => out.push(format!("YAML DESERR {}", hex(&e.to_string()))),
+                        Ok(w2) => {
+                            out.push(format!("YAMLEQ {}", w == w2));
+                            match serde_yaml::to_string(&w2) {
+                                Ok(s2) => out.push(format!("YAML2EQ {}", s == s2)),
+                                Err(e) => out.push(format!("YAML SERERR2 {}", hex(&e.to_string()))),
+                            }
+                        }
+                    }
+                }
+            }
+        }
+    }
+}
+
+#[allow(dead_code)]
+fn unused(_: HashMap<u8, u8>, _: Inst, _: &dyn HasIdentity) {}
